@@ -203,6 +203,11 @@ def r1(ctx):
                     b = _slice_bounds(t)
                     ctx.require(b is not None, f"del `{unparse(t)}` not understood")
                     dels[t.value.id] = (b, st, True)
+    # a working list handed to some function inside the round: slicing / consuming may happen there (extracted helper)
+    escapes = [unparse(c)[:60] for c in calls_in(w) if call_name(c) not in ("len", "bool", "list", "tuple", "iter", "enumerate", "zip")
+               and any(isinstance(a, ast.Name) and a.id in (L, CL) for a in list(c.args) + [k.value for k in c.keywords])]
+    ctx.require(not escapes or (set(reads) == set(dels) == {L, CL}),
+                f"the working lists are passed to {escapes}: slicing delegated to a helper is not followed (not understood)")
     bounds = set()
     for lst in (L, CL):
         key = f"{base}:slice:{'parameters' if lst == L else 'compiled_parameters'}"
@@ -485,8 +490,10 @@ def r2(ctx):
         else:
             kind, srt = "other", None
         kinds.append((kind, side == "on", c, st, side, srt))
-    ctx.require(any(side == "on" for *_, side, _s in kinds),
-                "no row delivery under `<imv>.num_sentinel_columns and not <batch>.is_downgraded` found")
+    tested = {a.attr for n in walk_local(f.node) if isinstance(n, (ast.If, ast.IfExp, ast.While)) for a in ast.walk(n.test)
+              if isinstance(a, ast.Attribute)} | {a.attr for v in defs.values() for a in ast.walk(v) if isinstance(a, ast.Attribute)}
+    ctx.require({"num_sentinel_columns", "is_downgraded"} <= tested,
+                "no test of `<imv>.num_sentinel_columns` / `<batch>.is_downgraded` found (sentinel branch anchor vanished)")
     # (a) raw rows only off the sentinel branch; on it only sorted / lookup
     bad = [f"`{unparse(c)[:50]}` ({k}{'' if side else ', not confined to either side of the sentinel test'})"
            for k, inb, c, st, side, _s in kinds
@@ -517,59 +524,78 @@ def r2(ctx):
         if not k.startswith("lookup:"):
             continue
         nm = k.split(":", 1)[1]
+        # where the list is built: here, or in a helper (method of the dialect / module function) whose result it is
+        bf, bg, bpm, bname, amap, call_st = f, g, pm, nm, {}, None
         builds = RD.list_builds(f.node, nm, pm)
         ctx.require(builds is not None, f"`{nm}` is changed in a way that is not understood")
+        if len(builds) == 1 and builds[0].form == "other":
+            hv = RD.strip_cast(defs.get(nm))
+            callee = _local_callee(ctx, f, hv) if isinstance(hv, ast.Call) else None
+            ctx.require(callee is not None, f"`{nm} = {unparse(builds[0].stmt)[:60]}` is neither a list construction nor a call of a local helper")
+            rets = [r for r in ast.walk(callee.node) if isinstance(r, ast.Return) and r.value is not None]
+            ctx.require(len(rets) == 1, f"helper {callee.qualname} has {len(rets)} return values")
+            ctx.functions_analysed.add(callee.key)
+            bf, bg, bpm, call_st = callee, ctx.cfg(callee), callee.module.parents(), builds[0].stmt
+            from ._helpers_rules_b import arg_for
+            amap = {p_: arg_for(hv, callee, p_) for p_ in callee.params}
+            rv = RD.strip_cast(rets[0].value)
+            if isinstance(rv, ast.Name):
+                bname = rv.id
+                builds = RD.list_builds(bf.node, bname, bpm)
+                ctx.require(builds is not None, f"`{bname}` in {callee.qualname} is changed in a way that is not understood")
+            else:
+                bname = f"<result of {callee.name}>"
+                builds = RD.returned_list_build(rets[0])
+                ctx.require(builds is not None, f"helper {callee.qualname} returns `{unparse(rv)[:60]}`: not a list construction")
+        bdefs = defs if bf is f else RD.single_defs(bf.node)
+
+        def _to_caller(e):
+            """an expression of the helper in the caller's terms (parameter -> argument), aliases resolved"""
+            e = RD.resolve(e, bdefs)
+            if isinstance(e, ast.Name) and amap.get(e.id) is not None:
+                e = RD.resolve(amap[e.id], defs)
+            return e
+
         fills = [b for b in builds if b.form in ("comp", "loop")]
         ctx.require(len(fills) == 1 and not any(b.form == "other" for b in builds),
-                    f"`{nm}` is not built by one comprehension / one append loop ({[b.form for b in builds]})")
+                    f"`{bname}` is not built by one comprehension / one append loop ({[b.form for b in builds]})")
         bld = fills[0]
         cst = bld.stmt
-        it = RD.resolve(bld.iter, defs)
+        it = _to_caller(bld.iter)
         by_param = isinstance(it, ast.Attribute) and it.attr == "sentinel_values" and not bld.ifs
         elt = bld.elt
         table = elt.value.id if isinstance(elt, ast.Subscript) and isinstance(elt.value, ast.Name) else None
         keyed = table is not None and unparse(elt.slice) == unparse(bld.target)
-        stale = RD.loop_builds_fresh(g, builds) if bld.form == "loop" else None
+        stale = RD.loop_builds_fresh(bg, builds) if bld.form == "loop" else None
         ctx.check(by_param and keyed and stale is None, f"{base}:lookup-in-parameter-order",
                   f"`{nm} = {bld.text()[:80]}` does not map each entry of <batch>.sentinel_values (parameter order) to its row"
-                  + ("" if stale is None else f" (`{nm}` is not emptied before each filling: rows of an earlier batch are delivered again)"),
-                  f"[{table}[k] for k in <batch>.sentinel_values]", f"{f.module.path}:{cst.lineno}", stale)
+                  + ("" if stale is None else f" (`{bname}` is not emptied before each filling: rows of an earlier batch are delivered again)"),
+                  f"[{table}[k] for k in <batch>.sentinel_values]", f"{bf.module.path}:{cst.lineno}", stale)
         if table is None:
             continue
-        # cardinality check dominates
-        node = g.nodes_for(bld.holder)
-        ctx.require(node, "lookup statement not in CFG")
-        guards = g.edge_guards(node[0])
-        card = False
-        for t0, pol in guards:
-            t = RD.expand(t0, defs)
-            if isinstance(t, ast.Compare) and len(t.ops) == 1 and isinstance(t.ops[0], (ast.NotEq, ast.Eq)):
-                sides = {unparse(t.left).replace(" ", ""), unparse(t.comparators[0]).replace(" ", "")}
-                if f"len({table})" in sides and any(s.startswith("len(") and s.endswith(".batch)") for s in sides):
-                    card = (isinstance(t.ops[0], ast.NotEq) and pol is False) or (isinstance(t.ops[0], ast.Eq) and pol is True)
-                    # the failing outcome must raise the documented error
-                    tn = [n.id for n in g.nodes if n.kind == "test" and n.stmt.test is t0]
-                    lab = "true" if isinstance(t.ops[0], ast.NotEq) else "false"
-                    fail = [b for b, l in g.succ[tn[0]] if l == lab] if tn else []
-                    reach = g.reachable(fail, avoid=node, edge_ok=lambda a, b, l: True)
-                    raises = [n for n in reach if g.node(n).kind == "stmt" and isinstance(g.node(n).stmt, ast.Raise)
-                              and (raised_name(g.node(n).stmt) or "").endswith("InvalidRequestError")]
-                    card = card and bool(raises) and node[0] not in g.reachable(fail)
+        # cardinality check dominates: in the function that builds the list, or (helper) in the caller before the call
+        where = [(bg, bld.holder, table, bdefs)]
+        if call_st is not None:
+            t_arg = _to_caller(ast.Name(id=table, ctx=ast.Load()))
+            where.append((g, call_st, t_arg.id if isinstance(t_arg, ast.Name) else table, defs))
+        card = any(_cardinality_dominates(ctx, gx, stx, tx, dx) for gx, stx, tx, dx in where)
         ctx.check(card, f"{base}:cardinality-check-dominates-lookup",
                   f"the lookup of rows by sentinel is not dominated by `len({table}) != len(<batch>.batch)` -> raise InvalidRequestError: "
                   f"duplicate or missing sentinel values could be returned silently",
-                  f"len({table}) == len(batch) established before the lookup", f"{f.module.path}:{cst.lineno}")
-        # KeyError -> documented error (the statement that evaluates T[k] is what must be covered)
-        tries = enclosing_try(pm, cst)
+                  f"len({table}) == len(batch) established before the lookup", f"{bf.module.path}:{cst.lineno}")
+        # KeyError -> documented error (the statement that evaluates T[k] -- or the call of the helper that does -- is
+        # what must be covered)
         handled = False
-        for t, part in tries:
-            if part == "body":
-                for h in t.handlers:
-                    if h.type is not None and "KeyError" in unparse(h.type):
-                        handled = any(isinstance(x, ast.Raise) and (raised_name(x) or "").endswith("InvalidRequestError") for x in ast.walk(h))
+        for pmx, stx in [(bpm, cst)] + ([(pm, call_st)] if call_st is not None else []):
+            for t, part in enclosing_try(pmx, stx):
+                if part == "body":
+                    for h in t.handlers:
+                        if h.type is not None and "KeyError" in unparse(h.type):
+                            handled = handled or any(isinstance(x, ast.Raise) and (raised_name(x) or "").endswith("InvalidRequestError")
+                                                     for x in ast.walk(h))
         ctx.check(handled, f"{base}:unmatched-sentinel-raises",
                   "a sentinel value with no matching row is not turned into the documented InvalidRequestError",
-                  "except KeyError -> InvalidRequestError", f"{f.module.path}:{cst.lineno}")
+                  "except KeyError -> InvalidRequestError", f"{bf.module.path}:{cst.lineno}")
     if not any(k.startswith("lookup:") for k, *_ in kinds):
         for a_ in (":lookup-in-parameter-order", ":cardinality-check-dominates-lookup", ":unmatched-sentinel-raises"):
             ctx.violation(base + a_, "cannot be established: no per-parameter lookup of rows on the sentinel branch", f.loc)
@@ -598,6 +624,38 @@ def r2(ctx):
               f"`{a.id}` passed to the batch generator is not `imv.sort_by_parameter_order` under RETURNING and False otherwise "
               f"(bindings: {[unparse(st)[:50] for _, st in binds]})",
               "imv.sort_by_parameter_order if is_returning else False", f.loc)
+
+
+def _local_callee(ctx, f, call: ast.Call):
+    """`self.m(...)` / `cls.m(...)` -> method through the MRO; `fn(...)` -> function of the same module"""
+    fn_ = call.func
+    if isinstance(fn_, ast.Attribute) and isinstance(fn_.value, ast.Name) and fn_.value.id in ("self", "cls") and f.cls is not None:
+        return ctx.index.resolve_method(f.cls, fn_.attr)
+    if isinstance(fn_, ast.Name):
+        return f.module.functions.get(fn_.id)
+    return None
+
+
+def _cardinality_dominates(ctx, g, st, table, defs) -> bool:
+    """`len(<table>) != len(<batch>.batch)` -> raise InvalidRequestError dominates statement `st` in CFG `g`"""
+    node = g.nodes_for(st)
+    ctx.require(node, "lookup statement not in CFG")
+    card = False
+    for t0, pol in g.edge_guards(node[0]):
+        t = RD.expand(t0, defs)
+        if isinstance(t, ast.Compare) and len(t.ops) == 1 and isinstance(t.ops[0], (ast.NotEq, ast.Eq)):
+            sides = {unparse(t.left).replace(" ", ""), unparse(t.comparators[0]).replace(" ", "")}
+            if f"len({table})" in sides and any(s.startswith("len(") and s.endswith(".batch)") for s in sides):
+                ok = (isinstance(t.ops[0], ast.NotEq) and pol is False) or (isinstance(t.ops[0], ast.Eq) and pol is True)
+                # the failing outcome must raise the documented error
+                tn = [n.id for n in g.nodes if n.kind == "test" and n.stmt.test is t0]
+                lab = "true" if isinstance(t.ops[0], ast.NotEq) else "false"
+                fail = [b for b, l in g.succ[tn[0]] if l == lab] if tn else []
+                reach = g.reachable(fail, avoid=node, edge_ok=lambda a, b, l: True)
+                raises = [n for n in reach if g.node(n).kind == "stmt" and isinstance(g.node(n).stmt, ast.Raise)
+                          and (raised_name(g.node(n).stmt) or "").endswith("InvalidRequestError")]
+                card = card or (ok and bool(raises) and node[0] not in g.reachable(fail))
+    return card
 
 
 def _selects_last(keyf) -> bool:
@@ -929,3 +987,31 @@ R.mutant("rob-raw-rows-added-before-the-sentinel-test", DEF,
 R.mutant("rob-inverted-sentinel-test-delivers-raw-rows-on-the-sentinel-side", DEF,
          sub("                if imv.num_sentinel_columns and not imv_batch.is_downgraded:\n",
              "                if not imv.num_sentinel_columns and not imv_batch.is_downgraded:\n"), "C12-R2")
+R.mutant("benign-rob-row-at-a-time-early-return-turned-into-if-else", COMP,
+         RD.ast_edit("SQLCompiler._deliver_insertmanyvalues_batches", RD.t_early_return_to_else("use_row_at_a_time")), None)
+_DOEXEC = "    def do_executemany(self, cursor, statement, parameters, context=None):\n"
+_CALL_HELPER = ("                    try:\n                        ordered_rows = self._rows_in_parameter_order(\n"
+                "                            rows_by_sentinel, imv_batch\n                        )\n")
+R.mutant("benign-rob-lookup-extracted-into-a-method", DEF,
+         chain(sub(_LOOKUP_COMP, _CALL_HELPER),
+               sub(_DOEXEC, "    def _rows_in_parameter_order(self, by_key, batch):\n"
+                            "        return [by_key[k] for k in batch.sentinel_values]\n\n" + _DOEXEC)), None)
+R.mutant("benign-rob-lookup-extracted-into-a-method-with-loop", DEF,
+         chain(sub(_LOOKUP_COMP, "                    try:\n                        ordered_rows = self._rows_in_parameter_order(\n"
+                                 "                            rows_by_sentinel, imv_batch.sentinel_values\n                        )\n"),
+               sub(_DOEXEC, "    def _rows_in_parameter_order(self, by_key, wanted):\n        found = []\n        for k in wanted:\n"
+                            "            found.append(by_key[k])\n        return found\n\n" + _DOEXEC)), None)
+R.mutant("rob-extracted-lookup-in-server-order", DEF,
+         chain(sub(_LOOKUP_COMP, _CALL_HELPER),
+               sub(_DOEXEC, "    def _rows_in_parameter_order(self, by_key, batch):\n"
+                            "        return [by_key[k] for k in by_key]\n\n" + _DOEXEC)), "C12-R2")
+R.mutant("rob-extracted-lookup-called-outside-the-keyerror-handler", DEF,
+         chain(sub(_LOOKUP_COMP, "                    ordered_rows = self._rows_in_parameter_order(\n"
+                                 "                        rows_by_sentinel, imv_batch\n                    )\n                    try:\n                        pass\n"),
+               sub(_DOEXEC, "    def _rows_in_parameter_order(self, by_key, batch):\n"
+                            "        return [by_key[k] for k in batch.sentinel_values]\n\n" + _DOEXEC)), "C12-R2")
+R.mutant("rob-extracted-lookup-with-the-wrong-table", DEF,
+         chain(sub(_LOOKUP_COMP, "                    try:\n                        ordered_rows = self._rows_in_parameter_order(\n"
+                                 "                            dict(enumerate(rows)), imv_batch\n                        )\n"),
+               sub(_DOEXEC, "    def _rows_in_parameter_order(self, by_key, batch):\n"
+                            "        return [by_key[k] for k in batch.sentinel_values]\n\n" + _DOEXEC)), "C12-R2")
